@@ -372,6 +372,8 @@ def derive(out, *ins, differentiable=True, view_of=None):
         out.storage = view_of.storage
         out.storage.members.append(out)
         out.stale = view_of.stale
+        if getattr(view_of, 'conj_bit', False):
+            out.conj_bit = True          # views of a lazily conjugated tensor keep the conjugate bit
     return out
 
 
@@ -929,7 +931,7 @@ def getitem(t, index):
         index = (index,)
     n = t.ndim
     # expand ellipsis
-    n_consuming = sum(1 for i in index if i is not None and i is not Ellipsis)
+    n_consuming = sum(1 for i in index if i is not None and i is not Ellipsis and i is not True)
     if n_consuming > n:
         raise PyRaise('IndexError', 'too many indices for tensor of dimension %d' % n, origin='torch')
     full = []
@@ -950,8 +952,8 @@ def getitem(t, index):
     out_k = 0
     adv = None
     for i in full:
-        if i is None:
-            axes.append(Axis(1))
+        if i is None or i is True:
+            axes.append(Axis(1))       # torch: a python True index inserts a new axis of size 1 (like None)
             out_k += 1
             continue
         ax = t.axes[src_k]
@@ -1082,7 +1084,14 @@ def setitem(t, index, value):
         3 if isinstance(value, complex) or (isinstance(value, SymScalar) and value.kind == 'complex') else \
         2 if isinstance(value, float) or (isinstance(value, SymScalar) and value.kind == 'float') else 0
     if vcat > _category(t.dtype) and vcat >= 2:
-        raise OutOfSubset('setitem casts the value to a lower dtype category (imaginary / fractional part is discarded)')
+        # torch casts the value to the dtype of the destination (imaginary / fractional part silently discarded, a warning at most):
+        # the written entries are not modelled -- the destination becomes opaque, its dtype stays what it was
+        ex().notes.append(('lossy_cast', 'setitem casts a value of a higher dtype category into a %s tensor' % t.dtype))
+        for m in t.storage.members:
+            m._val = None
+            m.ival = None
+        t.ghost['lossy_cast'] = True
+        return
     if isinstance(value, STensor):
         vs = value.shape
         if len(vs) > len(view_shape):
@@ -1408,7 +1417,10 @@ def conj(t):
     for k in ('fro2', 'orth_cols', 'orth_rows'):
         if k in t.ghost:
             out.ghost[k] = t.ghost[k]
-    return derive(out, t, view_of=t)
+    derive(out, t, view_of=t)
+    # torch.conj is lazy: the result is a view with the conjugate bit set (a second conj clears it)
+    out.conj_bit = not getattr(t, 'conj_bit', False)
+    return out
 
 
 def unary_fn(t, fn):
